@@ -40,6 +40,7 @@ structure FnInfo where
   read : List Nat
   bound : List Nat
   nonlocals : List Nat
+  globals : List Nat
   deriving Repr, Inhabited
 
 structure CfgData where
